@@ -32,6 +32,9 @@ type jop struct {
 	List     []int    `json:"list"`
 	Pairs    [][2]int `json:"pairs"`
 	Dt       int64    `json:"dt"`
+	Fault    int      `json:"fault"`
+	FPanic   bool     `json:"fpanic"`
+	Route    string   `json:"route"`
 }
 type scripted struct {
 	Note  string  `json:"note"`
@@ -48,7 +51,8 @@ func (s *scripted) ops() []op {
 			amt, _ = new(big.Int).SetString(j.Amt, 10)
 		}
 		out[i] = op{kind: j.Kind, a: key{j.A, j.AUp}, b: key{j.B, j.BUp}, d: j.Denom, amt: amt, months: j.Months,
-			chain: j.Chain, contract: j.Contract, list: j.List, pairs: j.Pairs, dt: j.Dt}
+			chain: j.Chain, contract: j.Contract, list: j.List, pairs: j.Pairs, dt: j.Dt,
+			fault: j.Fault, fpanic: j.FPanic, route: j.Route}
 	}
 	return out
 }
